@@ -340,4 +340,132 @@ theorem foldl_is_key_or_acc (sim : Str) (l : List (Str × Str)) (acc : Str) :
 
 theorem supportedEos_laterLonger : supportedEos.Pairwise LaterLonger := by decide
 
+/-! ### boundary faces -/
+
+/-- the cell a connection of boundary block `b` contributes: the index of its other end, if that is a
+    non-boundary block -/
+def nbCell (geoNames : List Str) (nAtm : Nat) (blocks : List WBlock) (atmos : Rat) (b : Str) (c : Str × Str) : Option Int :=
+  match findBlock blocks (otherEnd c b) with
+  | some w => if interior atmos w then (lastIdx geoNames (otherEnd c b)).map (fun i => (i : Int) - nAtm) else none
+  | none => none
+
+/-- the cells of the interior neighbours of block `b`, one per connection -/
+def nbCells (geoNames : List Str) (nAtm : Nat) (blocks : List WBlock) (atmos : Rat) (conns : List (Str × Str)) (b : Str) : List Int :=
+  (connsOf conns b).filterMap (nbCell geoNames nAtm blocks atmos b)
+
+theorem faceCellsLoop_eq (geoNames : List Str) (nAtm : Nat) (blocks : List WBlock) (atmos : Rat) (b : Str)
+    (cs : List (Str × Str)) (out : List Int) (h : faceCellsLoop geoNames nAtm blocks atmos b cs = .ok out) :
+    out = cs.filterMap (nbCell geoNames nAtm blocks atmos b) := by
+  induction cs generalizing out with
+  | nil => simp only [faceCellsLoop] at h; cases h; rfl
+  | cons c rest ih =>
+    unfold faceCellsLoop at h
+    rw [List.filterMap_cons]
+    cases hw : findBlock blocks (otherEnd c b) with
+    | none => rw [hw] at h; cases h
+    | some w =>
+      rw [hw] at h
+      simp only at h
+      by_cases hi : interior atmos w = true
+      · rw [if_pos hi] at h
+        cases hl : lastIdx geoNames (otherEnd c b) with
+        | none => rw [hl] at h; cases h
+        | some i =>
+          rw [hl] at h
+          simp only at h
+          have hc : nbCell geoNames nAtm blocks atmos b c = some ((i : Int) - nAtm) := by
+            unfold nbCell; simp [hw, hi, hl]
+          cases hr : faceCellsLoop geoNames nAtm blocks atmos b rest with
+          | error e => rw [hr] at h; cases h
+          | ok cs' =>
+            rw [hr] at h
+            cases h
+            rw [hc, ih cs' hr]
+      · rw [if_neg hi] at h
+        have hc : nbCell geoNames nAtm blocks atmos b c = none := by
+          unfold nbCell; simp [hw, hi]
+        rw [hc]
+        exact ih out h
+
+/-- the entry of one boundary block: none when it has no interior neighbour -/
+def bdyEntry (geoNames : List Str) (nAtm : Nat) (blocks : List WBlock) (atmos : Rat) (conns : List (Str × Str)) (b : WBlock) :
+    Option (Str × List Int) :=
+  if interior atmos b then none
+  else if (nbCells geoNames nAtm blocks atmos conns b.name).isEmpty then none
+  else some (b.name, nbCells geoNames nAtm blocks atmos conns b.name)
+
+theorem bdyEntry_interior (geoNames : List Str) (nAtm : Nat) (blocks : List WBlock) (atmos : Rat) (conns : List (Str × Str))
+    (b : WBlock) (h : interior atmos b = true) : bdyEntry geoNames nAtm blocks atmos conns b = none := by
+  simp [bdyEntry, h]
+
+theorem bdyEntry_boundary (geoNames : List Str) (nAtm : Nat) (blocks : List WBlock) (atmos : Rat) (conns : List (Str × Str))
+    (b : WBlock) (h : ¬ interior atmos b = true) :
+    bdyEntry geoNames nAtm blocks atmos conns b =
+      if (nbCells geoNames nAtm blocks atmos conns b.name).isEmpty then none
+      else some (b.name, nbCells geoNames nAtm blocks atmos conns b.name) := by
+  simp [bdyEntry, h]
+
+theorem boundaryFacesLoop_eq (geoNames : List Str) (nAtm : Nat) (blocks : List WBlock) (atmos : Rat) (conns : List (Str × Str))
+    (todo : List WBlock) (out : List (Str × List Int))
+    (h : boundaryFacesLoop geoNames nAtm blocks atmos conns todo = .ok out) :
+    out = todo.filterMap (bdyEntry geoNames nAtm blocks atmos conns) := by
+  induction todo generalizing out with
+  | nil => simp only [boundaryFacesLoop] at h; cases h; rfl
+  | cons b rest ih =>
+    unfold boundaryFacesLoop at h
+    rw [List.filterMap_cons]
+    by_cases hi : interior atmos b = true
+    · rw [if_pos hi] at h
+      rw [bdyEntry_interior _ _ _ _ _ _ hi]
+      exact ih out h
+    · rw [if_neg hi] at h
+      rw [bdyEntry_boundary _ _ _ _ _ _ hi]
+      cases hf : faceCellsLoop geoNames nAtm blocks atmos b.name (connsOf conns b.name) with
+      | error e => rw [hf] at h; cases h
+      | ok cs =>
+        rw [hf] at h
+        simp only at h
+        have hcs : cs = nbCells geoNames nAtm blocks atmos conns b.name := faceCellsLoop_eq _ _ _ _ _ _ _ hf
+        cases hr : boundaryFacesLoop geoNames nAtm blocks atmos conns rest with
+        | error e => rw [hr] at h; cases h
+        | ok r =>
+          rw [hr] at h
+          cases h
+          have hr' := ih r hr
+          rw [← hcs]
+          by_cases he : cs.isEmpty = true
+          · simp only [he, if_true]; exact hr'
+          · simp only [he, Bool.false_eq_true, if_false]; rw [hr']
+
+theorem mem_nbCells (geoNames : List Str) (nAtm : Nat) (blocks : List WBlock) (atmos : Rat) (conns : List (Str × Str))
+    (b : Str) (x : Int) :
+    x ∈ nbCells geoNames nAtm blocks atmos conns b ↔
+      ∃ c ∈ conns, (c.1 = b ∨ c.2 = b) ∧ ∃ w i, findBlock blocks (otherEnd c b) = some w ∧ interior atmos w = true ∧
+        lastIdx geoNames (otherEnd c b) = some i ∧ x = (i : Int) - nAtm := by
+  unfold nbCells connsOf
+  rw [List.mem_filterMap]
+  constructor
+  · rintro ⟨c, hc, hx⟩
+    obtain ⟨hc1, hc2⟩ := List.mem_filter.mp hc
+    refine ⟨c, hc1, by simpa using hc2, ?_⟩
+    unfold nbCell at hx
+    cases hw : findBlock blocks (otherEnd c b) with
+    | none => rw [hw] at hx; cases hx
+    | some w =>
+      rw [hw] at hx
+      by_cases hi : interior atmos w = true
+      · simp only [hi, if_true] at hx
+        cases hl : lastIdx geoNames (otherEnd c b) with
+        | none => rw [hl] at hx; cases hx
+        | some i =>
+          rw [hl] at hx
+          have hx' : (i : Int) - nAtm = x := by simpa using hx
+          exact ⟨w, i, rfl, hi, rfl, hx'.symm⟩
+      · simp [hi] at hx
+  · rintro ⟨c, hc, hcb, w, i, hw, hi, hl, hx⟩
+    refine ⟨c, List.mem_filter.mpr ⟨hc, by simpa using hcb⟩, ?_⟩
+    unfold nbCell
+    rw [hw]
+    simp [hi, hl, hx]
+
 end Proofs.Waiwera
